@@ -92,7 +92,8 @@ KNOWN FINDING `stored-share-lost-by-start-panic`, replayed on the implementation
 a chain notification accepts the proposal, more packets arrive — among them the honest messages of
 ≥ k members. -/
 def FullStatementLifeLiveness : Prop :=
-  ∀ (c : Crypto Sym) (env : Env), env.bindsHash = true → env.blockExists = false → 0 < env.groupSize →
+  ∀ (c : Crypto Sym) (env : Env), env.bindsHash = true → env.startRecovers = false →
+    env.blockExists = false → 0 < env.groupSize →
     ∀ (sh : Id → Data → Sym) (gs : Data → Sym), Lawful c env sh gs →
       ∀ (key0 : Data) (early late : List (Wire Sym)) (honest : List (Id × MsgId)),
         (honest.map (·.1)).Nodup → groupK env.groupSize ≤ honest.length →
@@ -101,7 +102,8 @@ def FullStatementLifeLiveness : Prop :=
           ([Event.cast 1000 .wait] ++ early.map (Event.packet false) ++ [Event.notify .accept] ++
             late.map (Event.packet false))).proc.ending = some true
 
-def liveEnv : Env := { leadEnv with bindsHash := true }
+/-- the handler binds the hash (fixed) but `round1.Start` does not contain a stored message's panic -/
+def liveEnv : Env := { leadEnv with bindsHash := true, startRecovers := false }
 
 /-- filed under the pre-change key (tag 9), signer id longer than 32 bytes -/
 def oversizeMsg : VMsg Sym :=
@@ -117,7 +119,7 @@ theorem life_liveness_counterexample : ¬ FullStatementLifeLiveness := by
   intro h
   have hl : Lawful (symCrypto 2 [0, 1, 2]) liveEnv (fun i d => Sym.share i d) (fun d => Sym.group d) :=
     symCrypto_lawful liveEnv (by decide)
-  have := h (symCrypto 2 [0, 1, 2]) liveEnv rfl rfl (by decide) _ _ hl 9
+  have := h (symCrypto 2 [0, 1, 2]) liveEnv rfl rfl rfl (by decide) _ _ hl 9
     [.ok oversizeMsg]
     [.ok (honestMsg liveEnv (fun i d => Sym.share i d) 1 1), .ok (honestMsg liveEnv (fun i d => Sym.share i d) 2 2)]
     [(1, 1), (2, 2)] (by decide) (by decide)
@@ -133,6 +135,15 @@ theorem life_liveness_counterexample : ¬ FullStatementLifeLiveness := by
 map order. -/
 example :
     (Life.run (symCrypto 2 [0, 1, 2]) liveEnv List.reverse (Life.new 9)
+      [.cast 1000 .wait, .packet false (.ok oversizeMsg), .notify .accept,
+       .packet false (.ok (honestMsg liveEnv (fun i d => Sym.share i d) 1 1)),
+       .packet false (.ok (honestMsg liveEnv (fun i d => Sym.share i d) 2 2))]).proc.ending = some true := by
+  decide
+
+/-- With a `round1.Start` that drops a panicking stored message and goes on (`startRecovers`, the
+proposed repair), the same history finalises the block in the order that failed above. -/
+example :
+    (Life.run (symCrypto 2 [0, 1, 2]) { liveEnv with startRecovers := true } id (Life.new 9)
       [.cast 1000 .wait, .packet false (.ok oversizeMsg), .notify .accept,
        .packet false (.ok (honestMsg liveEnv (fun i d => Sym.share i d) 1 1)),
        .packet false (.ok (honestMsg liveEnv (fun i d => Sym.share i d) 2 2))]).proc.ending = some true := by
@@ -167,5 +178,117 @@ theorem life_accept_in_update_reduces (c : Crypto G) (env : Env) (ord : List (VM
   have := key pre [] hpre
   simp only [List.nil_append] at this
   exact this
+
+/-! ### liveness over the life cycle when the proposal is accepted inside `baseParty.Update` -/
+
+theorem lifeRun_append (c : Crypto G) (env : Env) (ord : List (VMsg G) → List (VMsg G)) (a b : List (Event G)) :
+    ∀ l : Life G, Life.run c env ord l (a ++ b) = Life.run c env ord (Life.run c env ord l a) b := by
+  induction a with
+  | nil => intro l; rfl
+  | cons e rest ih => intro l; exact ih _
+
+theorem dispatch_eq_run (c : Crypto G) (env : Env) (ms : List (VMsg G)) :
+    ∀ pr : Proc G, dispatch c env pr ms = Proc.run c env pr (ms.map Wire.ok) := by
+  induction ms with
+  | nil => intro pr; rfl
+  | cons m rest ih => intro pr; exact ih _
+
+/-- Once in the signing stage, verify packets not filed under the pre-change key drive exactly the
+processor of `Model/Round.lean`. -/
+theorem lifeRun_signing (c : Crypto G) (env : Env) (hex : env.blockExists = false)
+    (ord : List (VMsg G) → List (VMsg G)) (late : List (Wire G)) :
+    ∀ l : Life G, l.stage = .signing →
+      (∀ w ∈ late, ∀ m, decode w = some m → m.blockHash ≠ l.key0) →
+      (Life.run c env ord l (late.map (Event.packet false))).proc = Proc.run c env l.proc late := by
+  induction late with
+  | nil => intro l _ _; rfl
+  | cons w rest ih =>
+    intro l hs hk
+    have hw : env.withChain false = env := by
+      cases env; simp only [Env.withChain] at *; simp_all
+    have hstep : (l.step c env ord (.packet false w)).stage = .signing ∧
+        (l.step c env ord (.packet false w)).key0 = l.key0 ∧
+        (l.step c env ord (.packet false w)).proc = (l.proc.deliver c env w).1 := by
+      simp only [Life.step, hw, Life.onPacket, Proc.deliver]
+      cases hd : decode w with
+      | none => exact ⟨hs, rfl, rfl⟩
+      | some m =>
+        have hne := hk w (by simp) m hd
+        simp only [hs]
+        rw [if_neg (by simp [hne])]
+        exact ⟨rfl, rfl, rfl⟩
+    simp only [List.map_cons, Life.run, Proc.run]
+    rw [ih _ hstep.1 (fun w' hw' m hm => by rw [hstep.2.1]; exact hk w' (by simp [hw']) m hm), hstep.2.2]
+
+/-- **life_one_faulty_cannot_block_in_update** (the life-cycle form of clause 3, for the acceptance path
+inside `baseParty.Update`): verify packets filed under the block hash may arrive before any party exists;
+the cast message is accepted; more packets arrive (none filed under the pre-change key). If the honest
+messages of ≥ k registered members are among the packets, the party ends `done` with the two group
+signatures, whatever else was delivered and in whatever order. -/
+theorem life_one_faulty_cannot_block_in_update (c : Crypto G) (env : Env) (hsrc : FromSource env)
+    (hex : env.blockExists = false) (hn : 0 < env.groupSize)
+    (sh : Id → Data → G) (gs : Data → G) (hl : Lawful c env sh gs)
+    (ord : List (VMsg G) → List (VMsg G)) (hord : ord [] = [])
+    (key0 : Data) (mid : MsgId) (pre : List (VMsg G)) (hpre : ∀ m ∈ pre, m.blockHash = env.hash)
+    (late : List (Wire G)) (hlate : ∀ w ∈ late, ∀ m, decode w = some m → m.blockHash ≠ key0)
+    (honest : List (Id × MsgId)) (hnd : (honest.map (·.1)).Nodup) (hlen : groupK env.groupSize ≤ honest.length)
+    (hmem : ∀ p ∈ honest, p.1 ∈ env.pkKnown ∧
+      Wire.ok (honestMsg env sh p.1 p.2) ∈ pre.map Wire.ok ++ late ∧ p.2 ≠ mid) :
+    let l := Life.run c env ord (Life.new key0)
+      (pre.map (fun m => Event.packet env.blockExists (.ok m)) ++ [Event.cast mid .accept] ++
+        late.map (Event.packet false))
+    l.proc.ending = some true ∧
+    l.proc.party.rs.generated = some (some (gs env.hash), some (gs env.prevRandom)) := by
+  intro l
+  -- the state right after the cast message
+  have key : ∀ (pre : List (VMsg G)) (acc : List (VMsg G)), (∀ m ∈ pre, m.blockHash = env.hash) →
+      let l1 := Life.run c env ord { (Life.new key0 : Life G) with pfuture := acc }
+        (pre.map (fun m => Event.packet env.blockExists (.ok m)) ++ [Event.cast mid .accept])
+      l1.stage = .signing ∧ l1.key0 = key0 ∧
+      l1.proc = dispatch c env (Proc.initWith c env [mid] (ord [])) (acc ++ pre) := by
+    intro pre
+    induction pre with
+    | nil =>
+      intro acc _
+      simp [Life.run, Life.step, Life.onCast, Life.new, Life.enterSigning]
+    | cons m rest ih =>
+      intro acc hm
+      have h1 : m.blockHash = env.hash := hm m (by simp)
+      have hw : env.withChain env.blockExists = env := rfl
+      simp only [List.map_cons, List.cons_append, Life.run, Life.step, Life.onPacket, decode, Life.new, hw]
+      simp only [h1, beq_self_eq_true, if_true]
+      have := ih (acc ++ [m]) (fun x hx => hm x (by simp [hx]))
+      simp only [Life.new, List.append_assoc, List.singleton_append] at this
+      exact this
+  have h1 : (Life.run c env ord (Life.new key0)
+        (pre.map (fun m => Event.packet env.blockExists (.ok m)) ++ [Event.cast mid .accept])).stage = .signing ∧
+      (Life.run c env ord (Life.new key0)
+        (pre.map (fun m => Event.packet env.blockExists (.ok m)) ++ [Event.cast mid .accept])).key0 = key0 ∧
+      (Life.run c env ord (Life.new key0)
+        (pre.map (fun m => Event.packet env.blockExists (.ok m)) ++ [Event.cast mid .accept])).proc =
+        dispatch c env (Proc.initWith c env [mid] (ord [])) pre := by
+    have := key pre [] hpre
+    simp only [List.nil_append] at this
+    exact this
+  have hl2 : l = Life.run c env ord (Life.run c env ord (Life.new key0)
+      (pre.map (fun m => Event.packet env.blockExists (.ok m)) ++ [Event.cast mid .accept]))
+      (late.map (Event.packet false)) := lifeRun_append c env ord _ _ _
+  have hproc : l.proc = Proc.run c env (Proc.initWith c env [mid] []) (pre.map Wire.ok ++ late) := by
+    rw [hl2, lifeRun_signing c env hex ord late _ h1.1 (by rw [h1.2.1]; exact hlate), h1.2.2, hord,
+      dispatch_eq_run]
+    -- Proc.run over an appended list
+    have happ : ∀ (a b : List (Wire G)) (pr : Proc G), Proc.run c env (Proc.run c env pr a) b = Proc.run c env pr (a ++ b) := by
+      intro a
+      induction a with
+      | nil => intro b pr; rfl
+      | cons x xs ih => intro b pr; exact ih b _
+    exact happ _ _ _
+  have := one_faulty_cannot_block_after_cast c env hsrc hex hn sh gs hl [mid] [] (pre.map Wire.ok ++ late)
+    honest hnd hlen (by
+      intro p hp
+      obtain ⟨a, b, cne⟩ := hmem p hp
+      exact ⟨a, b, by simpa using cne⟩)
+  rw [hproc]
+  exact ⟨this.1, this.2.1⟩
 
 end Rangers.Props.C15
